@@ -666,6 +666,11 @@ pub fn run(tier: Tier) -> i32 {
     }
     let alpha = alphabet();
     let max_len = tier.pick(5, 6);
+    {
+        let fc = super::crowd::run_function_crowd();
+        rep.bound("function_crowd", format!("{} well-formed names of mixed byte / character length registered in three orders: none refused, each invocable as itself", fc.members));
+        rep.absorb(fc.acc);
+    }
     rep.bound("builder_calls", alpha.len());
     rep.bound("max_history_length", max_len);
     let (acc, stats) = (0..alpha.len())
@@ -843,6 +848,9 @@ pub fn run(tier: Tier) -> i32 {
 }
 
 pub fn replay(case: &serde_json::Value) -> i32 {
+    if case.get("kind").and_then(|k| k.as_str()) == Some("function-crowd") {
+        return super::crowd::replay(case);
+    }
     let alpha = alphabet();
     match case.get("kind").and_then(|k| k.as_str()) {
         Some("history") => {
